@@ -597,13 +597,23 @@ def replay(ctx, rep):
 
 
 def search(ctx, broken):
-    """a proof obligation / tie broke and run() found nothing: enumerate the thorough space at property level"""
-    out = []
-    for c in enumerate_cases(True):
-        bad = prop_check(c)
-        if bad:
-            out.append(dict(kind='prop', observable=bad[0], signature=bad[1], detail=bad[2], input=c,
-                            broken_obligations=broken))
-            if len(out) >= 3:
-                break
+    """a proof obligation / tie broke and run() found nothing: enumerate the quick, then the thorough space at
+    property level (at most ~8 minutes)"""
+    import time
+    t0 = time.time()
+    out, seen = [], set()
+    for thorough in (False, True):
+        for c in enumerate_cases(thorough):
+            key = repr(sorted(c.items(), key=lambda kv: kv[0]))
+            if key in seen:
+                continue
+            seen.add(key)
+            bad = prop_check(c)
+            if bad:
+                out.append(dict(kind='prop', observable=bad[0], signature=bad[1], detail=bad[2], input=c,
+                                broken_obligations=broken))
+                if len(out) >= 3:
+                    return out
+            if time.time() - t0 > 480:
+                return out
     return out
